@@ -274,4 +274,498 @@ theorem wf_rank {att : List Change} (h : WFAtt att) :
       simp [hxc, h3 x this]
 
 
+
+/-! ### fuel irrelevance and restriction to an old sub-graph -/
+
+theorem foldl_visit_congr (F G : List Nat → Nat → List Nat) (cs : List Nat) :
+    ∀ acc, (∀ c ∈ cs, ∀ a, F a c = G a c) → cs.foldl F acc = cs.foldl G acc := by
+  induction cs with
+  | nil => intro acc _; rfl
+  | cons c cs ih =>
+    intro acc h
+    simp only [List.foldl_cons]
+    rw [h c (by simp) acc]
+    exact ih _ (fun d hd a => h d (List.mem_cons_of_mem _ hd) a)
+
+/-- more fuel than the rank needs changes nothing -/
+theorem visit_fuel (ch : Nat → List Nat) (rk : Nat → Nat) (hrk : ∀ x, ∀ c ∈ ch x, rk c < rk x) :
+    ∀ (f g : Nat) (x : Nat) (acc : List Nat), rk x < f → rk x < g → visit ch f x acc = visit ch g x acc := by
+  intro f
+  induction f with
+  | zero => intro g x acc h; omega
+  | succ f ih =>
+    intro g x acc hf hg
+    cases g with
+    | zero => omega
+    | succ g =>
+      unfold visit
+      split
+      · rfl
+      · congr 1
+        apply foldl_visit_congr
+        intro c hc a
+        have := hrk x c (List.mem_reverse.mp hc)
+        exact ih g c a (by omega) (by omega)
+
+/-- restriction of a traversal of the grown graph `ch'` to the old nodes is the traversal of the old graph
+`ch`: exploring a new node only ever reaches new nodes -/
+theorem visit_restrict (ch ch' : Nat → List Nat) (old : Nat → Bool)
+    (H1 : ∀ x, old x = true → (ch' x).filter old = ch x)
+    (H2 : ∀ x, old x = false → ∀ c ∈ ch' x, old c = false) :
+    ∀ (f : Nat) (x : Nat) (acc : List Nat),
+      (visit ch' f x acc).filter old = if old x then visit ch f x (acc.filter old) else acc.filter old := by
+  intro f
+  induction f with
+  | zero => intro x acc; simp [visit]
+  | succ f ih =>
+    intro x acc
+    have hfold : ∀ (cs : List Nat) (a : List Nat),
+        (cs.foldl (fun a c => visit ch' f c a) a).filter old
+          = (cs.filter old).foldl (fun a c => visit ch f c a) (a.filter old) := by
+      intro cs
+      induction cs with
+      | nil => intro a; rfl
+      | cons c cs ihc =>
+        intro a
+        simp only [List.foldl_cons]
+        rw [ihc, ih]
+        cases hc : old c <;> simp [hc]
+    unfold visit
+    cases hx : old x
+    · -- a new node: nothing old is added
+      simp only [Bool.false_eq_true, if_false]
+      split
+      · rfl
+      · rw [List.filter_cons]; simp only [hx, Bool.false_eq_true, if_false]
+        rw [hfold]
+        have : (ch' x).reverse.filter old = [] := by
+          rw [List.filter_eq_nil_iff]
+          intro c hc
+          have := H2 x hx c (List.mem_reverse.mp hc)
+          simp [this]
+        rw [this]; rfl
+    · simp only [if_true]
+      have hmem : acc.contains x = (acc.filter old).contains x := by
+        cases h : acc.contains x
+        · symm; rw [Bool.eq_false_iff]; intro h2
+          have h2' : x ∈ acc.filter old := by simpa using h2
+          have : x ∈ acc := (List.mem_filter.mp h2').1
+          simp [this] at h
+        · symm
+          have : x ∈ acc := by simpa using h
+          simpa using List.mem_filter.mpr ⟨this, hx⟩
+      rw [← hmem]
+      split
+      · rfl
+      · rw [List.filter_cons]; simp only [hx, if_true]
+        rw [hfold, List.filter_reverse, H1 x hx]
+
+
+
+/-! ### growth of a well-formed attachment list -/
+
+theorem filter_sortIds (p : Nat → Bool) (l : List Nat) : (sortIds l).filter p = sortIds (l.filter p) := by
+  apply sorted_ext ((sortIds_sorted l).sublist List.filter_sublist) (sortIds_sorted _)
+  intro x
+  rw [List.mem_filter, mem_sortIds, mem_sortIds, List.mem_filter]
+
+theorem snoc_cases (n : List Change) : n = [] ∨ ∃ n' c, n = n' ++ [c] := by
+  rcases List.eq_nil_or_concat n with h | ⟨l, b, h⟩
+  · exact Or.inl h
+  · exact Or.inr ⟨l, b, by simpa using h⟩
+
+/-- facts about a prefix of a well-formed attachment list -/
+theorem WFAtt.split {l : List Change} (h : WFAtt l) : ∀ (a n : List Change), l = a ++ n →
+    WFAtt a ∧ (l.map (·.id)).Nodup ∧
+    (∀ d ∈ a, ∀ p ∈ d.prevs, p ∈ l.map (·.id) → p ∈ a.map (·.id)) := by
+  induction h with
+  | nil =>
+    intro a n hl
+    have : a = [] := by
+      cases a with
+      | nil => rfl
+      | cons _ _ => simp at hl
+    subst this
+    exact ⟨WFAtt.nil, by simp, by simp⟩
+  | @snoc att c hatt hid hself hlater ih =>
+    intro a n hl
+    have hnd : ((att ++ [c]).map (·.id)).Nodup := by
+      have := (ih att [] (by simp)).2.1
+      rw [List.map_append, List.nodup_append]
+      refine ⟨this, by simp, ?_⟩
+      intro x hx y hy
+      have : y = c.id := by simpa using hy
+      subst this
+      intro e; exact hid (e ▸ hx)
+    rcases snoc_cases n with rfl | ⟨n', c', rfl⟩
+    · have : a = att ++ [c] := by simpa using hl.symm
+      subst this
+      refine ⟨WFAtt.snoc hatt hid hself hlater, hnd, ?_⟩
+      intro d _ p _ hp; exact hp
+    · rw [← List.append_assoc] at hl
+      obtain ⟨h1, h2⟩ := List.append_inj' hl (by simp)
+      have hc : c = c' := by simpa using h2
+      subst hc
+      obtain ⟨i1, _, i3⟩ := ih a n' h1
+      refine ⟨i1, hnd, ?_⟩
+      intro d hd p hp hpin
+      rw [List.map_append, List.mem_append] at hpin
+      rcases hpin with hpin | hpin
+      · exact i3 d hd p hp hpin
+      · have : p = c.id := by simpa using hpin
+        subst this
+        exfalso
+        exact hlater d (by rw [h1]; exact List.mem_append.mpr (Or.inl hd)) hp
+
+theorem contains_false_iff {l : List Nat} {y : Nat} : l.contains y = false ↔ y ∉ l := by
+  rw [← Bool.not_eq_true, List.contains_iff_mem]
+
+theorem nodup_ids_inj {l : List Change} (h : (l.map (fun c => c.id)).Nodup) :
+    ∀ d ∈ l, ∀ e ∈ l, d.id = e.id → d = e := by
+  induction l with
+  | nil => intro d hd; simp at hd
+  | cons a l ih =>
+    intro d hd e he hde
+    rw [List.map_cons, List.nodup_cons] at h
+    have ih' := ih h.2
+    rcases List.mem_cons.mp hd with hda | hd
+    · rcases List.mem_cons.mp he with hea | he
+      · rw [hda, hea]
+      · exfalso; apply h.1
+        exact List.mem_map.mpr ⟨e, he, by rw [← hde, hda]⟩
+    · rcases List.mem_cons.mp he with hea | he
+      · exfalso; apply h.1
+        exact List.mem_map.mpr ⟨d, hd, by rw [hde, hea]⟩
+      · exact ih' d hd e he hde
+
+/-- **growth**: appending changes to a well-formed attachment list does not reorder what was there -/
+theorem iter_growth (root : Nat) (att news : List Change) (hwf : WFAtt (att ++ news))
+    (hroot : root ∈ att.map (·.id)) :
+    (iter root (att ++ news)).filter (fun x => (att.map (·.id)).contains x) = iter root att := by
+  obtain ⟨hwa, hnd, hup⟩ := hwf.split att news rfl
+  have hinj := nodup_ids_inj hnd
+  let old : Nat → Bool := fun y => (att.map (·.id)).contains y || !((att ++ news).map (·.id)).contains y
+  have old_true : ∀ y, old y = true ↔ (y ∈ att.map (·.id) ∨ y ∉ (att ++ news).map (·.id)) := by
+    intro y
+    simp only [old, Bool.or_eq_true, Bool.not_eq_true', List.contains_iff_mem, contains_false_iff]
+  have old_false : ∀ y, old y = false ↔ (y ∉ att.map (·.id) ∧ y ∈ (att ++ news).map (·.id)) := by
+    intro y
+    simp only [old, Bool.or_eq_false_iff, Bool.not_eq_false', List.contains_iff_mem, contains_false_iff]
+  have H1 : ∀ x, old x = true → (children (att ++ news) x).filter old = children att x := by
+    intro x _
+    unfold children
+    rw [filter_sortIds]
+    apply sortIds_congr
+    intro y
+    rw [List.mem_filter, List.mem_map, List.mem_map]
+    constructor
+    · rintro ⟨⟨d, hd, rfl⟩, hy⟩
+      have hd' := List.mem_filter.mp hd
+      have hdin : d.id ∈ (att ++ news).map (·.id) := List.mem_map.mpr ⟨d, hd'.1, rfl⟩
+      have : d.id ∈ att.map (·.id) := by
+        rcases (old_true _).mp hy with hy | hy
+        · exact hy
+        · exact absurd hdin hy
+      obtain ⟨d0, hd0, hd0id⟩ := List.mem_map.mp this
+      have : d0 = d := hinj d0 (List.mem_append.mpr (Or.inl hd0)) d hd'.1 hd0id
+      subst this
+      exact ⟨d0, List.mem_filter.mpr ⟨hd0, hd'.2⟩, rfl⟩
+    · rintro ⟨d, hd, rfl⟩
+      have hd' := List.mem_filter.mp hd
+      refine ⟨⟨d, List.mem_filter.mpr ⟨List.mem_append.mpr (Or.inl hd'.1), hd'.2⟩, rfl⟩, ?_⟩
+      exact (old_true _).mpr (Or.inl (List.mem_map.mpr ⟨d, hd'.1, rfl⟩))
+  have H2 : ∀ x, old x = false → ∀ c ∈ children (att ++ news) x, old c = false := by
+    intro x hx c hc
+    have hx' := (old_false x).mp hx
+    obtain ⟨d, hd, rfl, hp⟩ := mem_children.mp hc
+    have hdin : d.id ∈ (att ++ news).map (·.id) := List.mem_map.mpr ⟨d, hd, rfl⟩
+    have hnot : d.id ∉ att.map (·.id) := by
+      intro h
+      obtain ⟨d0, hd0, hd0id⟩ := List.mem_map.mp h
+      have : d0 = d := hinj d0 (List.mem_append.mpr (Or.inl hd0)) d hd hd0id
+      subst this
+      exact hx'.1 (hup d0 hd0 x hp hx'.2)
+    exact (old_false _).mpr ⟨hnot, hdin⟩
+  have hr := visit_restrict (children att) (children (att ++ news)) old H1 H2 ((att ++ news).length + 1) root []
+  have hro : old root = true := (old_true root).mpr (Or.inl hroot)
+  simp only [hro, if_true, List.filter_nil] at hr
+  -- the filter `old` agrees with "is an old id" on everything presented
+  obtain ⟨rk', hk1, hk2, _⟩ := wf_rank hwf
+  have hext := visit_ext (children (att ++ news)) rk' hk1 ((att ++ news).length + 1) root []
+    (by have := hk2 root; omega) (good_nil _)
+  have hmem : ∀ y ∈ iter root (att ++ news), y ∈ (att ++ news).map (·.id) := by
+    intro y hy
+    obtain ⟨pre, hp, hd⟩ := hext.pre
+    have hpre : iter root (att ++ news) = pre := by simpa [iter, rpo] using hp
+    rw [hpre] at hy
+    obtain ⟨x, hx1, hx2⟩ := hd y hy
+    have : x = root := by simpa using hx1
+    subst this
+    have : ∀ a b, Desc (children (att ++ news)) a b → a ∈ (att ++ news).map (·.id) → b ∈ (att ++ news).map (·.id) := by
+      intro a b hab
+      induction hab with
+      | refl => exact id
+      | step hc _ ih => exact fun _ => ih (children_mem_ids hc)
+    exact this x y hx2 (by rw [List.map_append]; exact List.mem_append.mpr (Or.inl hroot))
+  have hfil : (iter root (att ++ news)).filter (fun x => (att.map (·.id)).contains x)
+      = (iter root (att ++ news)).filter old := by
+    apply List.filter_congr
+    intro y hy
+    have hin := hmem y hy
+    cases h : old y
+    · have := ((old_false y).mp h).1
+      exact contains_false_iff.mpr this
+    · rcases (old_true y).mp h with h1 | h1
+      · exact List.contains_iff_mem.mpr h1
+      · exact absurd hin h1
+  rw [hfil]
+  unfold iter rpo
+  rw [hr]
+  obtain ⟨rk, k1, k2, _⟩ := wf_rank hwa
+  apply visit_fuel (children att) rk k1
+  · have := k2 root; simp; omega
+  · have := k2 root; omega
+
+
+
+/-! ### positions; the Append argument -/
+
+/-- position of the first occurrence (`length` if absent) -/
+def pos : List Nat → Nat → Nat
+  | [], _ => 0
+  | a :: l, x => if a = x then 0 else pos l x + 1
+
+theorem pos_lt_of_mem {l : List Nat} {x : Nat} (h : x ∈ l) : pos l x < l.length := by
+  induction l with
+  | nil => simp at h
+  | cons a l ih =>
+    unfold pos
+    split
+    · simp
+    · rename_i hne
+      rcases List.mem_cons.mp h with rfl | h
+      · exact absurd rfl hne
+      · have := ih h; simp; omega
+
+theorem pos_append_right {l1 : List Nat} {y : Nat} (l2 : List Nat) (h : y ∉ l1) :
+    pos (l1 ++ l2) y = l1.length + pos l2 y := by
+  induction l1 with
+  | nil => simp
+  | cons a l1 ih =>
+    have hne : a ≠ y := fun e => h (by simp [e])
+    have hy : y ∉ l1 := fun e => h (List.mem_cons_of_mem _ e)
+    simp only [List.cons_append, pos, hne, if_false, ih hy, List.length_cons]; omega
+
+theorem Good.pos_lt {ch : Nat → List Nat} {l : List Nat} (h : Good ch l) :
+    ∀ x ∈ l, ∀ c ∈ ch x, pos l x < pos l c := by
+  intro x hx c hc
+  obtain ⟨l1, l2, rfl⟩ := List.append_of_mem hx
+  have hc2 := h.2 l1 x l2 rfl c hc
+  have hnd := h.1
+  rw [List.nodup_append] at hnd
+  obtain ⟨_, hnd2, hdis⟩ := hnd
+  have hx1 : x ∉ l1 := fun e => hdis x e x (by simp) rfl
+  have hc1 : c ∉ l1 := fun e => hdis c e c (List.mem_cons_of_mem _ hc2) rfl
+  have hcx : x ≠ c := by
+    intro e; subst e
+    exact (List.nodup_cons.mp hnd2).1 hc2
+  rw [pos_append_right _ hx1, pos_append_right _ hc1]
+  simp [pos, hcx]
+
+theorem Good.pos_desc {ch : Nat → List Nat} {l : List Nat} (h : Good ch l) {x y : Nat} (hd : Desc ch x y) :
+    x ∈ l → (y ∈ l ∧ (x = y ∨ pos l x < pos l y)) := by
+  induction hd with
+  | refl => intro hx; exact ⟨hx, Or.inl rfl⟩
+  | step hc _ ih =>
+    intro hx
+    have hcm := h.closed _ hx _ hc
+    have h1 := h.pos_lt _ hx _ hc
+    obtain ⟨hy, h2⟩ := ih hcm
+    refine ⟨hy, Or.inr ?_⟩
+    rcases h2 with rfl | h2
+    · exact h1
+    · omega
+
+theorem pos_filter_lt (p : Nat → Bool) : ∀ (l : List Nat) (x y : Nat), p x = true → p y = true →
+    pos l x < pos l y → pos (l.filter p) x < pos (l.filter p) y := by
+  intro l
+  induction l with
+  | nil => intro x y _ _ h; simp [pos] at h
+  | cons a l ih =>
+    intro x y hx hy h
+    by_cases hax : a = x
+    · subst hax
+      have hay : a ≠ y := by
+        intro e; subst e; simp [pos] at h
+      simp [hx, pos, hay]
+    · by_cases hay : a = y
+      · subst hay; simp [pos, hax] at h
+      · simp only [pos, hax, hay, if_false] at h
+        have := ih x y hx hy (by omega)
+        cases hpa : p a
+        · simpa [List.filter_cons, hpa] using this
+        · simp [hpa, pos, hax, hay]; exact this
+
+theorem pos_le_getLast {l : List Nat} (hnd : l.Nodup) {z : Nat} (hz : l.getLast? = some z) :
+    ∀ o ∈ l, pos l o ≤ pos l z := by
+  induction l with
+  | nil => intro o ho; simp at ho
+  | cons a l ih =>
+    intro o ho
+    cases l with
+    | nil =>
+      simp at hz ho; subst hz; subst ho; simp
+    | cons b l =>
+      rw [List.getLast?_cons_cons] at hz
+      have hnd' := List.nodup_cons.mp hnd
+      have hzl : z ∈ b :: l := List.mem_of_getLast? hz
+      have haz : a ≠ z := fun e => hnd'.1 (e ▸ hzl)
+      by_cases hao : a = o
+      · simp [pos, hao]
+      · have ho' : o ∈ b :: l := by
+          rcases List.mem_cons.mp ho with e | e
+          · exact absurd e.symm hao
+          · exact e
+        have := ih hnd'.2 hz o ho'
+        simp only [pos, hao, haz, if_false] at this ⊢
+        omega
+
+/-- a list in which every `p`-element precedes every non-`p`-element is its `p`-part followed by the rest -/
+theorem split_of_pos (p : Nat → Bool) : ∀ (l : List Nat), l.Nodup →
+    (∀ o ∈ l, ∀ n ∈ l, p o = true → p n = false → pos l o < pos l n) →
+    l = l.filter p ++ l.filter (fun x => !p x) := by
+  intro l
+  induction l with
+  | nil => intro _ _; rfl
+  | cons a l ih =>
+    intro hnd h
+    have hnd' := List.nodup_cons.mp hnd
+    cases hpa : p a
+    · -- then nothing in `l` satisfies `p`
+      have hno : ∀ o ∈ l, p o = false := by
+        intro o ho
+        cases hpo : p o
+        · rfl
+        · have := h o (List.mem_cons_of_mem _ ho) a (by simp) hpo hpa
+          simp [pos] at this
+      have h1 : l.filter p = [] := by
+        rw [List.filter_eq_nil_iff]; intro o ho; simp [hno o ho]
+      have h2 : l.filter (fun x => !p x) = l := by
+        rw [List.filter_eq_self]; intro o ho; simp [hno o ho]
+      simp [hpa, h1, h2]
+    · have hrec := ih hnd'.2 (by
+        intro o ho n hn hpo hpn
+        have := h o (List.mem_cons_of_mem _ ho) n (List.mem_cons_of_mem _ hn) hpo hpn
+        have hao : a ≠ o := fun e => hnd'.1 (e ▸ ho)
+        have han : a ≠ n := fun e => hnd'.1 (e ▸ hn)
+        simp only [pos, hao, han, if_false] at this
+        omega)
+      simp only [List.filter_cons, hpa, if_true, Bool.not_true, Bool.false_eq_true, if_false, List.cons_append]
+      congr 1
+
+
+/-- **append**: if every newly attached change descends from the last presented change, the old sequence
+is a prefix of the new one -/
+theorem iter_append (root : Nat) (att news : List Change) (hwf : WFAtt (att ++ news))
+    (hroot : root ∈ att.map (·.id)) (last : Nat) (hlast : (iter root att).getLast? = some last)
+    (hdesc : ∀ n ∈ news, Desc (children (att ++ news)) last n.id) :
+    iter root (att ++ news) = iter root att ++
+      (iter root (att ++ news)).filter (fun x => !(att.map (·.id)).contains x) := by
+  have hgrow := iter_growth root att news hwf hroot
+  obtain ⟨rk', hk1, hk2, _⟩ := wf_rank hwf
+  have hext := visit_ext (children (att ++ news)) rk' hk1 ((att ++ news).length + 1) root []
+    (by have := hk2 root; omega) (good_nil _)
+  have hgood : Good (children (att ++ news)) (iter root (att ++ news)) := hext.good
+  -- every presented id is the id of an attached change
+  have hmem : ∀ y ∈ iter root (att ++ news), y ∈ (att ++ news).map (·.id) := by
+    intro y hy
+    obtain ⟨pre, hp, hd⟩ := hext.pre
+    have hpre : iter root (att ++ news) = pre := by simpa [iter, rpo] using hp
+    rw [hpre] at hy
+    obtain ⟨x, hx1, hx2⟩ := hd y hy
+    have : x = root := by simpa using hx1
+    subst this
+    have : ∀ a b, Desc (children (att ++ news)) a b → a ∈ (att ++ news).map (·.id) → b ∈ (att ++ news).map (·.id) := by
+      intro a b hab
+      induction hab with
+      | refl => exact id
+      | step hc _ ih => exact fun _ => ih (children_mem_ids hc)
+    exact this x y hx2 (by rw [List.map_append]; exact List.mem_append.mpr (Or.inl hroot))
+  have hlast_old : last ∈ iter root att := List.mem_of_getLast? hlast
+  have hlast_new : last ∈ iter root (att ++ news) ∧ (att.map (·.id)).contains last = true := by
+    rw [← hgrow] at hlast_old
+    exact List.mem_filter.mp hlast_old
+  have hnd_old : (iter root att).Nodup := by
+    rw [← hgrow]; exact hgood.1.sublist List.filter_sublist
+  rw [← hgrow]
+  apply split_of_pos _ _ hgood.1
+  intro o ho n hn hpo hpn
+  -- `n` is new: it is the id of a change of `news`, hence a strict descendant of `last`
+  have hn_new : n ∉ att.map (·.id) := contains_false_iff.mp hpn
+  have hn_in := hmem n hn
+  rw [List.map_append, List.mem_append] at hn_in
+  have hn_news : n ∈ news.map (·.id) := by
+    rcases hn_in with h | h
+    · exact absurd h hn_new
+    · exact h
+  obtain ⟨c, hc, rfl⟩ := List.mem_map.mp hn_news
+  have hd := hdesc c hc
+  obtain ⟨_, hlt⟩ := hgood.pos_desc hd hlast_new.1
+  have hlt' : pos (iter root (att ++ news)) last < pos (iter root (att ++ news)) c.id := by
+    rcases hlt with e | h
+    · exfalso; rw [e] at hlast_new; exact hn_new (List.contains_iff_mem.mp hlast_new.2)
+    · exact h
+  -- `o` is old: it is not after `last`
+  have ho_old : o ∈ iter root att := by
+    rw [← hgrow]; exact List.mem_filter.mpr ⟨ho, hpo⟩
+  have hle := pos_le_getLast hnd_old hlast o ho_old
+  have : ¬ pos (iter root (att ++ news)) last < pos (iter root (att ++ news)) o := by
+    intro h
+    have := pos_filter_lt (fun x => (att.map (·.id)).contains x) _ last o hlast_new.2 hpo h
+    rw [hgrow] at this
+    omega
+  omega
+
+
+
+/-! ### the verdict of `add` -/
+
+theorem add_tree_att (t0 : T) (batch : List Change) :
+    (add t0 batch).tree.att = (addTree t0 batch).att ∧ (add t0 batch).tree.root = (addTree t0 batch).root := by
+  unfold add
+  simp only
+  split
+  · exact ⟨rfl, rfl⟩
+  · split
+    · rename_i h; exact ⟨rfl, rfl⟩
+    · split <;> exact ⟨rfl, by simp [*]⟩
+
+theorem add_append_ok (t0 : T) (batch : List Change) (h : (add t0 batch).mode = .append) :
+    appendOk t0 (addTree t0 batch) batch = true ∧ t0.att.isEmpty = false := by
+  unfold add at h
+  simp only at h
+  split at h
+  · simp at h
+  · split at h
+    · simp at h
+    · split at h
+      · simp at h
+      · rename_i hne
+        refine ⟨?_, by simpa using hne⟩
+        cases hok : appendOk t0 (addTree t0 batch) batch
+        · simp [hok] at h
+        · rfl
+
+theorem appendOk_seen (t0 t : T) (batch : List Change) (h : appendOk t0 t batch = true) :
+    ∀ c ∈ batch, t.has c.id = true → c.id ∈ reach (children t.att) (t.att.length + 1) t0.lastIter := by
+  intro c hc hhas
+  obtain ⟨i, hi, hget⟩ := List.getElem_of_mem hc
+  unfold appendOk at h
+  simp only [List.all_eq_true, List.mem_range] at h
+  have := h i hi
+  have hget' : batch[i]? = some c := by rw [List.getElem?_eq_getElem hi, hget]
+  simp only [hget', hhas, Bool.not_true, Bool.false_eq_true, if_false, Bool.and_eq_true] at this
+  exact List.contains_iff_mem.mp this.2
+
+
 end AnySync.Tree
